@@ -1,7 +1,7 @@
 #!/usr/bin/env bash
 # tools/regress_seeded.sh [pattern]  — re-runs every stored seeded change against its own property's
 # quick check (apply, run, restore) and prints one line per change; changes judged outside the
-# domain of their property (C13_7 links to directories, C02_14 overlapping pointer cells) are expected to stay silent.
+# domain of their property (C13_7 C13_17 links to directories, C02_14 overlapping pointer cells, C03_18 C18_18 C20_18 — see DESIGN §7.2) are expected to stay silent.
 cd /verif || exit 2
 ./check --setup | tail -1
 for d in seeded/${1:-C*}; do
